@@ -440,6 +440,10 @@ def main(argv):
             log('  %-34s %-11s %6.1fs  checks=%d failed=%d solver=%.1fs rss=%sMB%s' % (
                 h.name, r['verdict'] or ('TIMEOUT' if r['timed_out'] else 'NO-VERDICT'), r['wall_s'], len(r['checks']), nfail,
                 r['solver_s'], r.get('max_rss_mb'), ' (timeout %ds)' % r['timeout'] if r['timed_out'] else ''))
+    global EVID
+    if a.only:
+        # a partial run (--only) must not replace the evidence of the property's full check
+        EVID = os.path.join(VERIF, 'build', 'evidence_partial')
     return conclude(pid, a.tier, seed, results, meta, t0)
 
 
